@@ -25,6 +25,8 @@ func checkC05(c *Ctx) {
 	checkActionOwnParameter(c, "C05.R3")
 	checkSweepConstant(c, "C05.R4")
 	checkDispatcherNoDrop(c, "C05.R5")
+	c.Rule("C05.R6", "the memory store's scan index covers every stored message: each insert into the item table appends the id to the order list Dequeue walks, and the list is only rebuilt by keeping exactly the ids present in the item table (or emptied when the table is empty)")
+	checkOrderIndexIntegrity(c, "C05.R6")
 }
 
 // expireStmtFns: functions containing an EXPIRE statement (UPDATE … state=queued WHERE state=leased AND lease_until <= now).
